@@ -624,6 +624,157 @@ theorem iaRest_spec (habs : ∀ x : α, call "abs" [.val x] = .ok (.val (Val.abs
 
 end loops
 
+/-! ### the values `binUpdate f` returns are values of `f` -/
+
+theorem bind_ok_iff {ε σ ρ : Type} (x : Except ε σ) (f : σ → Except ε ρ) (b : ρ) :
+    (x >>= f) = .ok b ↔ ∃ a, x = .ok a ∧ f a = .ok b := by
+  cases x with
+  | error e => simp
+  | ok a => simp
+
+section range
+variable {β : Type} (P : β → Prop)
+
+def LastP : Last β → Prop
+  | .item _ v => P v
+  | _ => True
+
+theorem appendD_range (ne : β → β → Bool) (out : ASig β) (item : Tm × β) (ho : ∀ p ∈ out, P p.2) (hi : P item.2) :
+    ∀ p ∈ appendD ne out item, P p.2 := by
+  unfold appendD
+  split
+  · intro p hp; simp at hp; subst hp; exact hi
+  · split
+    · intro p hp
+      rcases List.mem_append.mp hp with h | h
+      · exact ho p h
+      · simp at h; subst h; exact hi
+    · exact ho
+
+theorem onLoop_range (f : α → α → β) (ne : β → β → Bool) (hP : ∀ a b, P (f a b)) (l1 l2 : ASig α) (out : ASig β)
+    (last : Last β) :
+    (∀ p ∈ out, P p.2) → LastP P last → ∀ res, onLoop f ne l1 l2 out last = .ok res →
+      (∀ p ∈ res.1, P p.2) ∧ LastP P res.2.1 := by
+  fun_induction onLoop f ne l1 l2 out last <;> intro ho hl res h
+  all_goals first
+    | (cases h; exact ⟨ho, hl⟩)
+    | (cases h; done)
+    | skip
+  all_goals
+    rename_i ih
+    refine ih ?_ ?_ res h
+    · first | exact ho | exact appendD_range P ne _ _ ho (hP _ _)
+    · first | exact hl | exact hP _ _ | exact True.intro
+
+theorem tail1_range (f : α → α → β) (ne : β → β → Bool) (hP : ∀ a b, P (f a b)) (p2 : Tm) (v2 : α) (l1 : ASig α)
+    (out : ASig β) (last : Last β) :
+    (∀ p ∈ out, P p.2) → LastP P last →
+      (∀ p ∈ (tail1 f ne p2 v2 l1 out last).1, P p.2) ∧ LastP P (tail1 f ne p2 v2 l1 out last).2 := by
+  fun_induction tail1 f ne p2 v2 l1 out last <;> intro ho hl
+  all_goals first
+    | exact ⟨ho, hl⟩
+    | exact ⟨ho, hP _ _⟩
+    | (rename_i ih
+       refine ih ?_ ?_
+       · first | exact ho | exact appendD_range P ne _ _ ho (hP _ _)
+       · first | exact hP _ _ | exact True.intro)
+
+theorem tail2_range (f : α → α → β) (ne : β → β → Bool) (hP : ∀ a b, P (f a b)) (p1 : Tm) (v1 : α) (l2 : ASig α)
+    (out : ASig β) (last : Last β) :
+    (∀ p ∈ out, P p.2) → LastP P last →
+      (∀ p ∈ (tail2 f ne p1 v1 l2 out last).1, P p.2) ∧ LastP P (tail2 f ne p1 v1 l2 out last).2 := by
+  fun_induction tail2 f ne p1 v1 l2 out last <;> intro ho hl
+  all_goals first
+    | exact ⟨ho, hl⟩
+    | exact ⟨ho, hP _ _⟩
+    | (rename_i ih
+       refine ih ?_ ?_
+       · first | exact ho | exact appendD_range P ne _ _ ho (hP _ _)
+       · first | exact hP _ _ | exact True.intro)
+
+theorem interOn_range (f : α → α → β) (ne : β → β → Bool) (hP : ∀ a b, P (f a b)) (s1 s2 : ASig α)
+    (res : ASig β × Last β × ASig α × ASig α) (h : interOn f ne s1 s2 = .ok res) :
+    (∀ p ∈ res.1, P p.2) ∧ LastP P res.2.1 := by
+  unfold interOn at h
+  split at h
+  · cases h; exact ⟨by simp, True.intro⟩
+  · cases h; exact ⟨by simp, True.intro⟩
+  · rename_i p1 v1 t1 p2 v2 t2
+    simp only [bind_ok_iff] at h
+    obtain ⟨a, ha, h⟩ := h
+    have h0 : LastP P (if (p1 == p2) = true then Last.item p1 (f v1 v2) else Last.nil) := by
+      split
+      · exact hP _ _
+      · exact True.intro
+    have hl := onLoop_range P f ne hP _ _ [] _ (by simp) h0 a ha
+    split at h
+    · cases h; exact tail1_range P f ne hP _ _ _ _ _ hl.1 hl.2
+    · cases h; exact tail2_range P f ne hP _ _ _ _ _ hl.1 hl.2
+    · cases h; exact hl
+
+theorem binUpdate_range (P : α → Prop) (f : α → α → α) (hP : ∀ a b, P (f a b)) (st : BinSt α) (sl sr : ASig α)
+    (st' : BinSt α) (d : ASig α) (h : binUpdate f st sl sr = .ok (st', d)) : ∀ p ∈ d, P p.2 := by
+  rw [binUpdate_eq] at h
+  split at h
+  · cases h
+  · rename_i result last left right hI
+    have hr := interOn_range P f vne hP _ _ _ hI
+    have hadd : ∀ p ∈ addLast result last, P p.2 := by
+      cases last with
+      | nil => exact hr.1
+      | nan => exact hr.1
+      | item t v =>
+          simp only [addLast]
+          split
+          · intro p hp; simp at hp; subst hp; exact hr.2
+          · split
+            · intro p hp
+              rcases List.mem_append.mp hp with h' | h'
+              · exact hr.1 p h'
+              · simp at h'; subst h'; exact hr.2
+            · exact hr.1
+    have hdrop : ∀ p ∈ dropFirst st.lastOut (addLast result last), P p.2 := by
+      unfold dropFirst
+      split
+      · split
+        · rename_i heq _
+          intro p hp; exact hadd p (by rw [heq]; simp [hp])
+        · exact hadd
+      · exact hadd
+    split at h
+    · cases h
+    · cases h; exact hdrop
+
+end range
+
+/-- the two readings of the verdict of `!=` agree on differences -/
+def SatNeLaw (α : Type) [Val α] : Prop :=
+  ∀ a b : α, satOn Cmp.ne (Val.sub a b) = satOfDiff Cmp.ne (Val.sub a b)
+
+/-- `hcmp` of C06 (the verdict read off the difference is the comparison) implies it -/
+theorem satNeLaw_of_hcmp (hcmp : ∀ (c : Cmp) (a b : α), satOfDiff c (Val.sub a b) = c.holds a b) : SatNeLaw α := by
+  intro a b
+  have h1 := hcmp .eq a b
+  have h2 := hcmp .ne a b
+  simp only [satOfDiff, Cmp.holds] at h1 h2
+  simp only [satOn, numEq, satOfDiff, h1, h2]
+  cases Val.lt a b <;> cases Val.lt b a <;> rfl
+
+/-- so does `0 < abs d ↔ d < 0 ∨ 0 < d` -/
+theorem satNeLaw_of_abs (habs : ∀ d : α, Val.lt Val.zero (Val.abs d) = (Val.lt d Val.zero || Val.lt Val.zero d)) :
+    SatNeLaw α := by
+  intro a b
+  simp only [satOn, numEq, satOfDiff, habs]
+  cases Val.lt (Val.sub a b) Val.zero <;> cases Val.lt Val.zero (Val.sub a b) <;> rfl
+
+/-- the hypothesis of `gen_iapred_updateObj` from the law (needed for `!=` only) -/
+theorem hsat_of_law (c : Cmp) (hne : c = .ne → SatNeLaw α) (st : BinSt α) (sl sr : ASig α) (st' : BinSt α) (d : ASig α)
+    (h : binUpdate (fun a b => Val.sub a b) st sl sr = .ok (st', d)) : ∀ p ∈ d, satOn c p.2 = satOfDiff c p.2 := by
+  by_cases hc : c = .ne
+  · subst hc
+    exact binUpdate_range (fun x => satOn Cmp.ne x = satOfDiff Cmp.ne x) _ (hne rfl) st sl sr st' d h
+  · intro p _; exact satOn_of_ne hc p.2
+
 theorem call_len (fuel k : Nat) (l : List (DV α)) :
     callAt Gen.DenseOn.fns fuel k "len" [.list l] = .ok (.int l.length : DV α) := by
   rw [callAt_builtin _ _ _ "len" _ rfl]; simp [builtin]
@@ -735,5 +886,188 @@ theorem gen_iapred_construct (fuel : Nat) (c : Cmp) (vs : List (DV α)) :
   have hd : (depth : Nat) = 5 + 2 := rfl
   have hn : ("IAPredicateOperation" ++ ".__init__" : String) = "IAPredicateOperation.__init__" := by decide
   simp only [construct, hd, hn, ho, ok_bind, pure_eq_ok]
+
+/-- `update` of the interface-aware `PredicateOperation`: `binUpdate` with the subtraction, then `iaOut` (the verdicts `sat()`
+    keeps, as `±inf`) - or the exception the mirror raises (where the mirror raises the `TypeError` of `last = float('nan')`,
+    the subtraction object raises it or returns `[nan]`, on which `i[1]` of the inlined `update` raises it) -/
+theorem gen_iapred_update (fuel k : Nat) (c : Cmp) (hI : InterOnSpec α fuel k)
+    (hm : ∀ a b, callAt Gen.DenseOn.fns fuel (k + 1) "subtraction" [.val a, .val b] = .ok (.val (Val.sub a b) : DV α))
+    (st : BinSt α) (o : DV α) (hrel : IAPredRel c st o) (sl sr : ASig α) (hfuel : binFuel st sl sr ≤ fuel) :
+    match binUpdate (fun a b => Val.sub a b) st sl sr with
+    | .ok (st', d) =>
+        ∃ o', callAt Gen.DenseOn.fns fuel (k + 4) "IAPredicateOperation.update" [o, encSig sl, encSig sr] =
+            .ok (.list [o', encSig (iaOut c d)]) ∧ IAPredRel c st' o'
+    | .error e =>
+        callAt Gen.DenseOn.fns fuel (k + 4) "IAPredicateOperation.update" [o, encSig sl, encSig sr] = .error e := by
+  obtain ⟨store, sub, rfl, hsub, hrelsub, hcmp, ⟨d0, hd0⟩, hsem, ⟨vs, hiv⟩, hov, hk⟩ := hrel
+  have hupd := gen_bin_update_full fuel k "SubtractionOperation" "subtraction" binClass_Subtraction
+    (fun a b => Val.sub a b) hI hm st sub hrelsub sl sr hfuel
+  obtain ⟨substore, rfl, -⟩ := hrelsub
+  rw [callAt_fn _ _ _ _ Gen.DenseOn.IAPredicateOperation_update _ rfl]
+  obtain ⟨e1, e2, _, e4⟩ := env0_facts store hk (encSig sl) (encSig sr)
+  have e5 := env0_len store hk (encSig sl) (encSig sr)
+  have hname : ("SubtractionOperation" ++ "." ++ "update" : String) = "SubtractionOperation" ++ ".update" := rfl
+  have hx1 : exec (callAt (α := α) Gen.DenseOn.fns fuel (k + 3)) fuel (.setLoc "update0$sample_result" .emptyList)
+      (store ++ [("sample_left", encSig sl), ("sample_right", encSig sr)]) =
+      .ok (setLoc "update0$sample_result" (.list [])
+        (store ++ [("sample_left", encSig sl), ("sample_right", encSig sr)]), .none) :=
+    GOnBin.exec_setLoc _ fuel (by simp [evalE])
+  generalize henv1 : setLoc "update0$sample_result" (DV.list [])
+    (store ++ [("sample_left", encSig sl), ("sample_right", encSig sr)]) = env1 at hx1
+  have g1 : ∀ k', k' ≠ "update0$sample_result" →
+      getLoc k' env1 = getLoc k' (store ++ [("sample_left", encSig sl), ("sample_right", encSig sr)]) := by
+    intro k' hk'; rw [← henv1]; exact getLoc_setLoc_ne _ _ _ _ hk'
+  have sl1 : evalE (callAt (α := α) Gen.DenseOn.fns fuel (k + 3)) env1 (.loc "sample_left") = .ok (encSig sl) := by
+    rw [evalE, g1 _ (by decide)]; exact e1
+  have sr1 : evalE (callAt (α := α) Gen.DenseOn.fns fuel (k + 3)) env1 (.loc "sample_right") = .ok (encSig sr) := by
+    rw [evalE, g1 _ (by decide)]; exact e2
+  have sub1 : getLoc "self.sub" env1 = .ok (.obj "SubtractionOperation" substore) := by
+    rw [g1 _ (by decide)]; exact getLoc_append_left hsub
+  revert hupd
+  cases hb : binUpdate (fun a b => Val.sub a b) st sl sr with
+  | error e =>
+      rintro (hcall | ⟨rfl, sub', hcall⟩)
+      · have hx2 := exec_mcall2_err (callAt (α := α) Gen.DenseOn.fns fuel (k + 3)) fuel "update0$input_list" "self.sub"
+          "update" _ _ env1 _ _ "SubtractionOperation" substore e sl1 sr1 sub1 (by rw [hname]; exact hcall)
+        refine runFn_method_err _ fuel _ rfl _ store _ rfl e ?_
+        rw [IA_body]
+        show exec _ fuel iaBody (store ++ [("sample_left", encSig sl), ("sample_right", encSig sr)]) = _
+        unfold iaBody
+        rw [GOnBin.exec_seq_ok _ fuel hx1, GOnBin.exec_seq_err _ fuel hx2]
+      · -- the subtraction object has returned `[nan]`: `i[1]` of the loop raises the `TypeError`
+        have hx2 := exec_mcall2_ok (callAt (α := α) Gen.DenseOn.fns fuel (k + 3)) fuel "update0$input_list" "self.sub"
+          "update" _ _ env1 _ _ "SubtractionOperation" substore sub' (.list [.nan]) sl1 sr1 sub1
+          (by rw [hname]; exact hcall)
+        have hx3 : exec (callAt (α := α) Gen.DenseOn.fns fuel (k + 3)) fuel
+            (.setLoc "self.subtraction_output" (.loc "update0$input_list"))
+            (setLoc "update0$input_list" (.list [.nan]) (setLoc "self.sub" sub' env1)) =
+            .ok (setLoc "self.subtraction_output" (.list [.nan])
+              (setLoc "update0$input_list" (.list [.nan]) (setLoc "self.sub" sub' env1)), .none) :=
+          GOnBin.exec_setLoc _ fuel (by simp [evalE])
+        have hx4 : exec (callAt (α := α) Gen.DenseOn.fns fuel (k + 3)) fuel (.setLoc "update0$prev" .nan)
+            (setLoc "self.subtraction_output" (.list [.nan])
+              (setLoc "update0$input_list" (.list [.nan]) (setLoc "self.sub" sub' env1))) =
+            .ok (setLoc "update0$prev" .nan (setLoc "self.subtraction_output" (.list [.nan])
+              (setLoc "update0$input_list" (.list [.nan]) (setLoc "self.sub" sub' env1))), .none) :=
+          GOnBin.exec_setLoc _ fuel (by simp [evalE])
+        generalize henv4 : setLoc "update0$prev" DV.nan (setLoc "self.subtraction_output" (DV.list [DV.nan])
+          (setLoc "update0$input_list" (DV.list [DV.nan]) (setLoc "self.sub" sub' env1))) = env4 at hx4
+        have cmp4 : getLoc "self.comparison_op" env4 = .ok (.cmp c) := by
+          rw [← henv4]; simp; rw [g1 _ (by decide)]; exact getLoc_append_left hcmp
+        have il4 : evalE (callAt (α := α) Gen.DenseOn.fns fuel (k + 3)) env4 (.loc "update0$input_list") =
+            .ok (.list [.nan]) := by
+          rw [evalE, ← henv4]; simp
+        have hx5 := exec_forIn_list (callAt (α := α) Gen.DenseOn.fns fuel (k + 3)) fuel "update0$i"
+          (.loc "update0$input_list") updLoopBody env4 _ il4
+        have hb5 := updLoopBody_nan (callAt (α := α) Gen.DenseOn.fns fuel (k + 3)) fuel
+          (setLoc "update0$i" .nan env4) c (by simpa using cmp4) (by simp)
+        rw [List.map_cons, List.map_nil, forLoop_cons] at hx5
+        simp only [hb5, error_bind] at hx5
+        refine runFn_method_err _ fuel _ rfl _ store _ rfl .type ?_
+        rw [IA_body]
+        show exec _ fuel iaBody (store ++ [("sample_left", encSig sl), ("sample_right", encSig sr)]) = _
+        unfold iaBody iaRest
+        rw [GOnBin.exec_seq_ok _ fuel hx1, GOnBin.exec_seq_ok _ fuel hx2, GOnBin.exec_seq_ok _ fuel hx3,
+          GOnBin.exec_seq_ok _ fuel hx4, GOnBin.exec_seq_err _ fuel hx5]
+  | ok r =>
+      obtain ⟨st', d⟩ := r
+      rintro ⟨sub', hcall, hrel'⟩
+      have hx2 := exec_mcall2_ok (callAt (α := α) Gen.DenseOn.fns fuel (k + 3)) fuel "update0$input_list" "self.sub"
+        "update" _ _ env1 _ _ "SubtractionOperation" substore sub' (encSig d) sl1 sr1 sub1 (by rw [hname]; exact hcall)
+      generalize henv2 : setLoc "update0$input_list" (encSig d) (setLoc "self.sub" sub' env1) = env2 at hx2
+      have g2 : ∀ k', k' ≠ "update0$input_list" → k' ≠ "self.sub" → k' ≠ "update0$sample_result" →
+          getLoc k' env2 = getLoc k' (store ++ [("sample_left", encSig sl), ("sample_right", encSig sr)]) := by
+        intro k' a b c'; rw [← henv2, getLoc_setLoc_ne _ _ _ _ a, getLoc_setLoc_ne _ _ _ _ b, g1 _ c']
+      have sub2 : getLoc "self.sub" env2 = .ok sub' := by rw [← henv2]; simp
+      obtain ⟨env3, hx3, so3, f3⟩ := iaRest_spec (callAt (α := α) Gen.DenseOn.fns fuel (k + 3)) fuel
+        (call_abs fuel (k + 3)) (call_len fuel (k + 3)) c d env2
+        (by rw [← henv2]; simp) (by rw [← henv2, ← henv1]; simp [encSig])
+        (by rw [g2 _ (by decide) (by decide) (by decide)]; exact getLoc_append_left hcmp)
+        (by rw [g2 _ (by decide) (by decide) (by decide)]; exact getLoc_append_left hsem)
+        (by rw [g2 _ (by decide) (by decide) (by decide)]; exact getLoc_append_left hov)
+        (by rw [g2 _ (by decide) (by decide) (by decide)]; exact e4)
+        (by rw [g2 _ (by decide) (by decide) (by decide)]; exact e5)
+      have hx : exec (callAt (α := α) Gen.DenseOn.fns fuel (k + 3)) fuel Gen.DenseOn.IAPredicateOperation_update.body
+          (store ++ (Gen.DenseOn.IAPredicateOperation_update.params.drop 1).zip [encSig sl, encSig sr]) =
+          .ok (env3, .ret (encSig (iaOut c d))) := by
+        rw [IA_body]
+        show exec _ fuel iaBody (store ++ [("sample_left", encSig sl), ("sample_right", encSig sr)]) = _
+        unfold iaBody
+        rw [GOnBin.exec_seq_ok _ fuel hx1, GOnBin.exec_seq_ok _ fuel hx2]
+        exact hx3
+      have hnot : ∀ k', isSelfKey k' = true → k' ≠ "self.subtraction_output" → k' ∉ iaVars := by
+        intro k' hs hne hmem
+        simp only [iaVars, updVars, satAll, outVars, List.mem_append, List.mem_cons, List.not_mem_nil, or_false] at hmem
+        rcases hmem with ((h | h | h | h | h | h) | (h | h | h | h | h | h | h)) | (h | h | h | h | h) <;>
+          first | exact hne h | (subst h; simp [isSelfKey] at hs)
+      refine ⟨_, runFn_method_ret _ fuel _ rfl _ store _ rfl env3 _ hx,
+        ⟨_, sub', rfl, ?_, hrel', ?_, ⟨d, ?_⟩, ?_, ⟨vs, ?_⟩, ?_, selfKeys_filter _⟩⟩
+      · rw [lookup_filter_self _ _ (by simp [isSelfKey])]
+        exact getLoc_ok_iff.mp (by rw [f3 _ (hnot _ (by simp [isSelfKey]) (by decide))]; exact sub2)
+      · rw [lookup_filter_self _ _ (by simp [isSelfKey])]
+        exact getLoc_ok_iff.mp (by
+          rw [f3 _ (hnot _ (by simp [isSelfKey]) (by decide)), g2 _ (by decide) (by decide) (by decide)]
+          exact getLoc_append_left hcmp)
+      · rw [lookup_filter_self _ _ (by simp [isSelfKey])]
+        exact getLoc_ok_iff.mp so3
+      · rw [lookup_filter_self _ _ (by simp [isSelfKey])]
+        exact getLoc_ok_iff.mp (by
+          rw [f3 _ (hnot _ (by simp [isSelfKey]) (by decide)), g2 _ (by decide) (by decide) (by decide)]
+          exact getLoc_append_left hsem)
+      · rw [lookup_filter_self _ _ (by simp [isSelfKey])]
+        exact getLoc_ok_iff.mp (by
+          rw [f3 _ (hnot _ (by simp [isSelfKey]) (by decide)), g2 _ (by decide) (by decide) (by decide)]
+          exact getLoc_append_left hiv)
+      · rw [lookup_filter_self _ _ (by simp [isSelfKey])]
+        exact getLoc_ok_iff.mp (by
+          rw [f3 _ (hnot _ (by simp [isSelfKey]) (by decide)), g2 _ (by decide) (by decide) (by decide)]
+          exact getLoc_append_left hov)
+
+/-- the same through `updateObj` (call depth `depth = 7`), against `iaPredUpdateOn`: values and exceptions, no hypothesis on
+    the value type -/
+theorem gen_iapred_updateObj_on (fuel : Nat) (c : Cmp) (hI : InterOnSpec α fuel 3)
+    (st : BinSt α) (o : DV α) (hrel : IAPredRel c st o) (sl sr : ASig α) (hfuel : binFuel st sl sr ≤ fuel) :
+    match iaPredUpdateOn c st sl sr with
+    | .ok (st', out) => ∃ o', updateObj fuel o [sl, sr] = .ok (o', out) ∧ IAPredRel c st' o'
+    | .error e => updateObj fuel o [sl, sr] = .error e := by
+  have h := gen_iapred_update fuel 3 c hI (fun a b => meth_subtraction fuel 3 a b) st o hrel sl sr hfuel
+  obtain ⟨store, sub, rfl, -⟩ := hrel
+  have hd : (depth : Nat) = 3 + 4 := rfl
+  have hn : ("IAPredicateOperation" ++ ".update" : String) = "IAPredicateOperation.update" := by decide
+  unfold iaPredUpdateOn
+  revert h
+  cases hb : binUpdate (fun a b => Val.sub a b) st sl sr with
+  | error e =>
+      intro h
+      simp only [updateObj, hd, hn, List.map_cons, List.map_nil, h]; rfl
+  | ok r =>
+      obtain ⟨st', d⟩ := r
+      rintro ⟨o', h, hr⟩
+      refine ⟨o', ?_, hr⟩
+      simp only [updateObj, hd, hn, List.map_cons, List.map_nil, h]; simp
+
+/-- … and against the mirror clause `iaPredUpdate` (= `stepOn` at `.predSat c`, `stepOn_predSat`).  `hsat`: on the difference
+    signal the verdict of the online `sat()` is `satOfDiff`; it holds by `rfl` for every operator but `!=`
+    (`satOn_of_ne`), where it says `(0 < abs d) = not (d == 0)`. -/
+theorem gen_iapred_updateObj (fuel : Nat) (c : Cmp) (hI : InterOnSpec α fuel 3)
+    (st : BinSt α) (o : DV α) (hrel : IAPredRel c st o) (sl sr : ASig α)
+    (hsat : ∀ st' d, binUpdate (fun a b => Val.sub a b) st sl sr = .ok (st', d) →
+      ∀ p ∈ d, satOn c p.2 = satOfDiff c p.2)
+    (hfuel : binFuel st sl sr ≤ fuel) :
+    match iaPredUpdate c st sl sr with
+    | .ok (st', out) => ∃ o', updateObj fuel o [sl, sr] = .ok (o', out) ∧ IAPredRel c st' o'
+    | .error e => updateObj fuel o [sl, sr] = .error e := by
+  rw [← iaPredUpdateOn_eq c st sl sr hsat]
+  exact gen_iapred_updateObj_on fuel c hI st o hrel sl sr hfuel
+
+/-- the form used in the assembly: the hypothesis is a law of the value type, needed for `!=` only (`GOnIA.SatNeLaw`: on
+    differences, `(0 < abs d) = not (d == 0)`; it follows from `hcmp` of C06, `GOnIA.satNeLaw_of_hcmp`) -/
+theorem gen_iapredop_updateObj (fuel : Nat) (c : Cmp) (hne : c = .ne → SatNeLaw α)
+    (st : BinSt α) (o : DV α) (hrel : IAPredRel c st o) (sl sr : ASig α) (hfuel : binFuel st sl sr ≤ fuel)
+    (hI : InterOnSpec α fuel 3) :
+    match iaPredUpdate c st sl sr with
+    | .ok (st', out) => ∃ o', updateObj fuel o [sl, sr] = .ok (o', out) ∧ IAPredRel c st' o'
+    | .error e => updateObj fuel o [sl, sr] = .error e :=
+  gen_iapred_updateObj fuel c hI st o hrel sl sr (fun st' d h => hsat_of_law c hne st sl sr st' d h) hfuel
 
 end Rtamt.Py.DnOn
